@@ -10,6 +10,7 @@ use refamqp::RVal;
 use serde_json::json;
 use std::collections::{HashSet, VecDeque};
 use std::sync::Mutex;
+use std::time::{Duration, Instant};
 use vlib::report::{Ctx, Outcome};
 use vlib::util::{catch, h64, hex, par_map};
 use vlib::vpipe::{Chunking, Pipe};
@@ -733,12 +734,16 @@ pub fn run(ctx: &Ctx) -> Outcome {
     out.set("negotiated_pairs", n_neg);
     let n_hdr = header_stage(&mut out);
     out.set("header_read_partitions", n_hdr);
-    out.set("evaluations", n_write + n_read + wcases.len() as u64 * 4 + 1 + n_neg + n_hdr);
+    let (n_big, big_refused, big_written) = big_state_stage(ctx, &mut out);
+    out.set("large_state_transfer_cases", n_big);
+    out.set("large_state_transfers_refused", big_refused);
+    out.set("large_state_transfers_written", big_written);
+    out.set("evaluations", n_write + n_read + wcases.len() as u64 * 4 + 1 + n_neg + n_hdr + n_big);
     out.set("write_cases", n_write);
     out.set("multi_frame_writes", *multi.lock().unwrap());
     out.set("read_partitions", n_read);
     out.set("distinct_nontrivial", distinct.into_inner().unwrap().len() as u64);
-    out.set("rule", "write: every performative kind x 3 channels x 4 field subsets, empty frame, transfers with every payload length 0..3m+16 (m=512) / +-40 around each multiple of the frame body (other m) x tag lengths x field subsets, pre-split (more=true) inputs, through the real Transport at each max-frame-size; stream parsed by the independent frame parser and judged (complete frames, size <= m, header, performative fields vs spec expectation, more flags, payload concatenation); oversized open; write chunking. read: a reference-encoded stream of all performative kinds (narrowest and widest encodings), empty frames and transfers with payload read through the real Transport under every uniform chunk size, every single split offset and every pair of split offsets in the first 12 bytes; result compared with whole reads. negotiated: a real client connection announcing max-frame-size L against a scripted peer announcing R for 7 (L,R) pairs: every frame the library writes is <= R, and a transfer frame of exactly L bytes from the peer is accepted. header: a real client, a real listener and a real listener with a SASL layer read the peer's 8-byte protocol header (and what follows) in reads of k bytes (k=1..9), with one and with two read boundaries at every position inside the header: the handshake succeeds as with whole reads. distinct = distinct byte streams written");
+    out.set("rule", "write: every performative kind x 3 channels x 4 field subsets, empty frame, transfers with every payload length 0..3m+16 (m=512) / +-40 around each multiple of the frame body (other m) x tag lengths x field subsets, pre-split (more=true) inputs, through the real Transport at each max-frame-size; stream parsed by the independent frame parser and judged (complete frames, size <= m, header, performative fields vs spec expectation, more flags, payload concatenation); oversized open; write chunking. read: a reference-encoded stream of all performative kinds (narrowest and widest encodings), empty frames and transfers with payload read through the real Transport under every uniform chunk size, every single split offset and every pair of split offsets in the first 12 bytes; result compared with whole reads. negotiated: a real client connection announcing max-frame-size L against a scripted peer announcing R for 7 (L,R) pairs: every frame the library writes is <= R, and a transfer frame of exactly L bytes from the peer is accepted. header: a real client, a real listener and a real listener with a SASL layer read the peer's 8-byte protocol header (and what follows) in reads of k bytes (k=1..9), with one and with two read boundaries at every position inside the header: the handshake succeeds as with whole reads. large state: transfers whose performative carries a rejected state with a description of every length that puts the performative (first frame and continuation frames) just below, at and above the frame body size, each in a sub-process (3 GiB address-space limit, 20 s): refused with an error, or written as valid frames <= m whose payloads concatenate; never a panic, crash or hang. distinct = distinct byte streams written");
     out.set("exhaustive", true);
     out.set("bound", format!("max-frame-sizes {:?}", ms));
     out.set(
@@ -775,4 +780,174 @@ fn replay(p: &std::path::Path, mut out: Outcome) -> Outcome {
 #[allow(dead_code)]
 fn unused(_: &Attach) -> String {
     dbg(&1)
+}
+
+// ------------------------------------------------------------------------------------------------
+// Transfers whose performative is about as large as a frame body (a long delivery state), each case in a
+// sub-process: an encoder that cannot make progress allocates without bound, which must not take the checker down
+// ------------------------------------------------------------------------------------------------
+
+fn big_state_transfer(state_len: usize, payload_len: usize, settled_fields: bool) -> (Frame, Vec<u8>) {
+    use fe2o3_amqp_types::definitions::{AmqpError, Error as AmqpErr, Handle};
+    use fe2o3_amqp_types::messaging::{DeliveryState, Rejected};
+    let payload: Vec<u8> = (0..payload_len).map(|i| (i * 13 + 5) as u8).collect();
+    let t = Transfer {
+        handle: Handle(3),
+        delivery_id: Some(9),
+        delivery_tag: Some(serde_bytes::ByteBuf::from(vec![1u8, 2, 3, 4])),
+        message_format: Some(0),
+        settled: if settled_fields { Some(false) } else { None },
+        more: false,
+        rcv_settle_mode: None,
+        state: Some(DeliveryState::Rejected(Rejected { error: Some(AmqpErr::new(AmqpError::NotAllowed, Some("d".repeat(state_len)), None)) })),
+        resume: settled_fields,
+        aborted: false,
+        batchable: false,
+    };
+    (Frame::new(5u16, FrameBody::Transfer { performative: t, payload: bytes::Bytes::from(payload.clone()) }), payload)
+}
+
+/// `vcheck C06-one <m> <state_len> <payload_len> <0|1>`: prints one line `PANIC ..` / `ERR ..` / `OK <hex>`
+pub fn one_main(args: &[String]) -> i32 {
+    let m: usize = args[0].parse().unwrap();
+    let sl: usize = args[1].parse().unwrap();
+    let pl: usize = args[2].parse().unwrap();
+    let sf = args[3] == "1";
+    unsafe {
+        let lim = libc::rlimit { rlim_cur: 3 << 30, rlim_max: 3 << 30 };
+        libc::setrlimit(libc::RLIMIT_AS, &lim);
+    }
+    vlib::runner::install_panic_hook();
+    let r = catch(|| {
+        let (frame, _) = big_state_transfer(sl, pl, sf);
+        let r = rt();
+        r.block_on(async move {
+            let (pipe, a, _b) = Pipe::new();
+            let mut t: Transport<_, Frame> = Transport::bind(a, m, None);
+            t.send(frame).await.map_err(|e| format!("send failed: {e:?}"))?;
+            t.flush().await.map_err(|e| format!("flush failed: {e:?}"))?;
+            Ok::<Vec<u8>, String>(pipe.take_bytes(1))
+        })
+    });
+    match r {
+        Err(p) => println!("PANIC {}", p.replace('\n', " ")),
+        Ok(Err(e)) => println!("ERR {}", e.replace('\n', " ")),
+        Ok(Ok(b)) => println!("OK {}", b.iter().map(|x| format!("{:02x}", x)).collect::<String>()),
+    }
+    0
+}
+
+fn run_one_big_state(m: usize, sl: usize, pl: usize, sf: bool) -> Result<String, String> {
+    use std::io::Read;
+    use std::process::{Command, Stdio};
+    let exe = std::env::current_exe().map_err(|e| e.to_string())?;
+    let mut child = Command::new(exe)
+        .args(["C06-one", &m.to_string(), &sl.to_string(), &pl.to_string(), if sf { "1" } else { "0" }])
+        .stdout(Stdio::piped())
+        .stderr(Stdio::null())
+        .spawn()
+        .map_err(|e| format!("spawn: {e}"))?;
+    let mut so = child.stdout.take().unwrap();
+    let reader = std::thread::spawn(move || {
+        let mut s = String::new();
+        let _ = so.read_to_string(&mut s);
+        s
+    });
+    let start = Instant::now();
+    loop {
+        match child.try_wait() {
+            Ok(Some(st)) => {
+                let s = reader.join().unwrap_or_default();
+                if let Some(l) = s.lines().find(|l| l.starts_with("OK ") || l.starts_with("ERR ") || l.starts_with("PANIC ")) {
+                    return Ok(l.to_string());
+                }
+                return Ok(format!("CRASH exit status {st} (memory limit 3 GiB)"));
+            }
+            Ok(None) => {
+                if start.elapsed() > Duration::from_secs(20) {
+                    let _ = child.kill();
+                    let _ = child.wait();
+                    return Ok("HANG no result within 20 s".into());
+                }
+                std::thread::sleep(Duration::from_millis(5));
+            }
+            Err(e) => return Err(format!("wait: {e}")),
+        }
+    }
+}
+
+/// (cases, refused, written) ; a refusal (send error) is a correct answer to a performative that cannot fit
+fn big_state_stage(ctx: &Ctx, out: &mut Outcome) -> (u64, u64, u64) {
+    let mut cases: Vec<(usize, usize, usize, bool)> = vec![];
+    for m in [512usize, 600] {
+        // the transfer performative is about 55 bytes + the description: sweep its size across the frame body
+        for sl in (m - 130)..=(m + 10) {
+            for pl in [0usize, 1, 700] {
+                for sf in [false, true] {
+                    if ctx.quick() && (sl % 2 == 1) && sf {
+                        continue;
+                    }
+                    cases.push((m, sl, pl, sf));
+                }
+            }
+        }
+    }
+    let res = par_map(&cases, ctx.threads, |_, (m, sl, pl, sf)| run_one_big_state(*m, *sl, *pl, *sf));
+    let (mut refused, mut written) = (0u64, 0u64);
+    let mut seen: HashSet<String> = HashSet::new();
+    for ((m, sl, pl, sf), r) in cases.iter().zip(res) {
+        let what = format!("transfer with state=rejected(description of {sl} bytes), payload {pl} B, resume={sf} at max-frame-size {m}");
+        let mut fails: Vec<(String, String)> = vec![];
+        match r {
+            Err(e) => {
+                if out.machinery_errors.len() < 4 {
+                    out.machinery_errors.push(format!("C06 big-state worker: {e}"));
+                }
+            }
+            Ok(l) if l.starts_with("ERR ") => refused += 1,
+            Ok(l) if l.starts_with("PANIC ") => fails.push(("panic write (transfer with a large delivery state)".into(), format!("{what}: {}", &l[6..]))),
+            Ok(l) if l.starts_with("CRASH") || l.starts_with("HANG") => fails.push(("encoder-no-progress (transfer with a large delivery state)".into(), format!("{what}: {l}"))),
+            Ok(l) => {
+                written += 1;
+                let bytes = vlib::util::unhex(&l[3..]).unwrap_or_default();
+                let (_, payload) = big_state_transfer(*sl, *pl, *sf);
+                match refamqp::parse_frames(&bytes) {
+                    Ok((frames, used)) if used == bytes.len() && !frames.is_empty() => {
+                        let mut cat = vec![];
+                        let n = frames.len();
+                        for (i, fr) in frames.iter().enumerate() {
+                            if fr.size as usize > *m {
+                                fails.push(("oversized-frame transfer (large delivery state)".into(), format!("{what}: frame {i} of {n} has size {} > {m}", fr.size)));
+                            }
+                            match refamqp::split_body(&fr.body) {
+                                Ok(Some((perf, p))) => {
+                                    cat.extend_from_slice(p);
+                                    match refamqp::validate_composite(&perf) {
+                                        Ok((comp, fields)) if comp.name == "transfer" => {
+                                            let more = matches!(fields.get(5), Some(RVal::Bool(true)));
+                                            if (i + 1 < n) != more {
+                                                fails.push(("transfer more-flag (large delivery state)".into(), format!("{what}: frame {i} of {n} has more={more}")));
+                                            }
+                                        }
+                                        _ => fails.push(("undecodable-body transfer (large delivery state)".into(), format!("{what}: frame {i} does not carry a valid transfer"))),
+                                    }
+                                }
+                                _ => fails.push(("undecodable-body transfer (large delivery state)".into(), format!("{what}: body of frame {i}/{n} is not a performative"))),
+                            }
+                        }
+                        if cat != payload {
+                            fails.push(("transfer payload-corrupted (large delivery state)".into(), format!("{what}: payloads concatenate to {} bytes, original {}", cat.len(), payload.len())));
+                        }
+                    }
+                    _ => fails.push(("not-a-frame-sequence transfer (large delivery state)".into(), format!("{what}: the {} bytes written are not a sequence of complete frames", bytes.len()))),
+                }
+            }
+        }
+        for (s, d) in fails {
+            if seen.insert(s.clone()) {
+                out.violation(s, d, json!({"kind": "big-state", "m": m, "state_len": sl, "payload_len": pl, "resume": sf}));
+            }
+        }
+    }
+    (cases.len() as u64, refused, written)
 }
